@@ -1,6 +1,7 @@
 """C12 Repository data is served only to peers allowed to see it (spec/Serve.tla), plus the
 git-request-header part of C13 (`c13_part`, called from props/C13.py)."""
 import json
+import random
 import os
 import threading
 import vlib
@@ -247,6 +248,7 @@ def run(ctx):
         "requests are made by the honest client (header forms other than its own are bound through the parser hook, not over the network)",
         "the requester role 'delegate' is a key listed in the identity document that holds no copy of the repository",
     ]
+    ctx.cov["fresh_identity"] = fresh_part(ctx, thorough)
     if es["inconclusive"] and not ctx.violations:
         raise vlib.ToolError("inconclusive end-to-end observations: " + "; ".join(es["inconclusive"][:5]))
     served_cells = sum(1 for r in results["e2e"] if not r.get("summary") and r["served"])
@@ -254,6 +256,99 @@ def run(ctx):
         if not ctx.violations:
             raise vlib.ToolError(f"vacuous decision table on the real nodes: {served_cells} of {n_cells} cells served")
     return ctx.finish(rule=RULE)
+
+
+def fresh_part(ctx, thorough):
+    """Freshness of the identity document the seed decides by (spec/ServeFresh.tla): behaviours of the model --
+    the owner edits the visibility and/or commits, the seed pulls, the requester asks the seed -- are executed
+    on three real nodes over loopback (engine c12_e2e, one process per behaviour). Gating: after every
+    successful pull the document at the seed's canonical refs/rad/id allows nobody the owner's document at that
+    time excludes, and the requester is never served when the pulled document excludes it (a stale document
+    that is stricter than the owner's is drift). A refusal where the model expects
+    service, or a step that fails for reasons of the environment, is inconclusive, not a violation."""
+    import subprocess
+    from concurrent.futures import ThreadPoolExecutor
+    ctx.build("c12_e2e")
+    res = ctx.tlc("MCServeFresh", "MCServeFresh_t.cfg" if thorough else "MCServeFresh_q.cfg", workers=1, timeout=900, coverage=True,
+                  label="identity freshness design model: FreshIdentity, ServedOnlyIfAllowed (deviation disabled)")
+    ctx.tlc_ok(res, "MCServeFresh")
+    if res.violated:
+        ctx.violation(f"model-fresh:{res.violated}", "the freshness design model violates the invariant", {"tlc": res.error_trace[:80]})
+        return {}
+    ctx.require_coverage(res, ["Edit", "Commit", "Pull", "Request"])
+    dev = ctx.tlc("MCServeFresh", "MCServeFresh_dev.cfg", workers=1, timeout=300, coverage=False, count=False,
+                  label="sanity: deviation id-with-head must violate ServedOnlyIfAllowed")
+    if dev.violated != "ServedOnlyIfAllowed":
+        raise vlib.ToolError(f"sanity run: deviation id-with-head was not rejected by TLC ({dev.violated})")
+    cases = [c for c in res.cases if c.get("ops")]
+    limit = 240 if thorough else 71
+    if len(cases) > limit:
+        rnd = random.Random(ctx.seed * 31 + 7)
+        # keep every behaviour in which a pull follows an edit without a commit in between (the narrow case)
+        def narrow(c):
+            seen_edit = False
+            for op in c["ops"]:
+                if op[0] == "edit":
+                    seen_edit = True
+                elif op[0] == "commit":
+                    seen_edit = False
+                elif op[0] == "pull" and seen_edit:
+                    return True
+            return False
+        must = [c for c in cases if narrow(c) and c["expect"] == "refused"]
+        rest = [c for c in cases if c not in must]
+        cases = rnd.sample(must, min(len(must), limit // 2)) + rnd.sample(rest, min(len(rest), limit - min(len(must), limit // 2)))
+
+    def one(ic):
+        i, c = ic
+        out = os.path.join(ctx.work, f"fresh-{i}.json")
+        try:
+            subprocess.run([ctx.bin("c12_e2e"), "--case", json.dumps({"ops": c["ops"], "expect": c["expect"]}), "--out", out, "--timeout", "60"],
+                           cwd=ctx.work, stdout=subprocess.DEVNULL, stderr=subprocess.DEVNULL, timeout=240)
+            return json.loads(open(out).readline())
+        except Exception as e:      # timeout, crash of the environment: inconclusive
+            return {"ops": c["ops"], "expect": c["expect"], "outcome": None, "seed_docs": [], "inconclusive": f"engine: {e}"}
+
+    with ThreadPoolExecutor(max_workers=6) as ex:
+        results = list(ex.map(one, enumerate(cases)))
+    stats = {"behaviours": len(cases), "conclusive": 0, "inconclusive": 0, "served": 0, "refused": 0, "refused_where_model_serves": 0, "pulls_checked": 0}
+    for r in results:
+        # the owner's visibility at each pull, by the model
+        odoc, expected = "public", []
+        for op in r["ops"]:
+            if op[0] == "edit":
+                odoc = op[1]
+            elif op[0] == "pull":
+                expected.append(odoc)
+        docs = [d for d in r["seed_docs"] if isinstance(d, str)]
+        for k, d in enumerate(docs):
+            stats["pulls_checked"] += 1
+            perm = {"public": 3, "both": 2, "seed": 1}
+            if d != expected[k] and perm.get(d, 9) <= perm.get(expected[k], 0):
+                stats["stale_but_stricter"] = stats.get("stale_but_stricter", 0) + 1      # drift: nobody is served who should not be
+            elif d != expected[k]:
+                ctx.violation(f"fresh-identity stale-after-pull {expected[k]}->{d}",
+                              f"after a successful pull the seed's canonical identity document says '{d}', the owner's says '{expected[k]}' (behaviour {json.dumps(r['ops'])})",
+                              {"engine": "c12_e2e", "case": {"ops": r["ops"], "expect": r["expect"]}, "observed": r})
+        if r["inconclusive"] or r["outcome"] is None:
+            stats["inconclusive"] += 1
+            continue
+        stats["conclusive"] += 1
+        stats[r["outcome"]] += 1
+        if r["outcome"] == "served" and r["expect"] == "refused":
+            ctx.violation("fresh-identity served-to-excluded-peer",
+                          f"the seed served the repository to a peer its last pulled identity document excludes (behaviour {json.dumps(r['ops'])})",
+                          {"engine": "c12_e2e", "case": {"ops": r["ops"], "expect": r["expect"]}, "observed": r})
+        elif r["outcome"] == "refused" and r["expect"] == "served":
+            stats["refused_where_model_serves"] += 1
+    if stats["conclusive"] == 0 or stats["pulls_checked"] == 0:
+        raise vlib.ToolError(f"freshness part: no conclusive behaviour on the real nodes ({[r['inconclusive'] for r in results[:3]]})")
+    if stats["served"] == 0 or stats["refused"] == 0:
+        if not ctx.violations:
+            raise vlib.ToolError(f"vacuous freshness part: served={stats['served']} refused={stats['refused']}")
+    ctx.cov["traces_validated_against_impl"] += stats["conclusive"]
+    ctx.cov["evaluations"] += stats["pulls_checked"] + stats["conclusive"]
+    return stats
 
 
 def c13_part(ctx):
@@ -304,6 +399,14 @@ def replay(ctx, path):
     ctx.build(ENGINE)
     d = json.load(open(path))["replay"]
     case = d.get("case")
+    if d.get("engine") == "c12_e2e":
+        ctx.build("c12_e2e")
+        out = os.path.join(ctx.work, "fresh.json")
+        ctx.engine("c12_e2e", ["--case", json.dumps(case), "--out", out], timeout=300)
+        print("model:", json.dumps(case))
+        print("real: ", open(out).read())
+        ctx.cleanup()
+        return 0
     if case is None:
         print(json.dumps(d, indent=1))
         ctx.cleanup()
